@@ -8,4 +8,5 @@ go build -o bin/check ./cmd/check
 ./build_atlas.sh
 ./c20rt/gen_overlay.sh
 go build -overlay build/overlay.json -o bin/check20 ./cmd/check20
+go build -race -overlay build/overlay.json -o bin/check20race ./cmd/check20race
 echo "setup ok"
